@@ -20,8 +20,8 @@
    unconfirmed).  [heqv1]/[heqv2]: equal, except that an unconfirmed contract may be pending on
    one side and rejected on the other (the one-way rejection). *)
 From HostdBase Require Import Base.
-From HostdContracts Require Import Model Lib Inv InvOps Chain PerContract Proj Rows SpecLemmas Steps
-  Plain Rescan Hist ProofsC01 Wfb.
+From HostdContracts Require Import Model Build Lib Inv InvOps Chain BuildProofs PerContract Proj Rows
+  SpecLemmas Steps Plain Rescan Hist ProofsC01 Wfb.
 Local Open Scope N_scope.
 
 (* Every well-formed history — any interleaving of batches of reverts and applies, rescans and other
@@ -125,6 +125,24 @@ Theorem c01_rejection_complete_v2 : forall (l : list op) revs apps i ch hm s',
   forall id c, find2 id (cs2 s') = Some c -> conf2 c = None -> neg2 c <? hm = true -> s2 c = R2.
 Proof. exact rejection_complete_v2_run. Qed.
 Print Assumptions c01_rejection_complete_v2.
+
+(* The blocks of this file are what the contract manager hands to the store: buildContractState
+   (Build.v, tied to host/contracts/update.go by its own correspondence run) maps the element diffs
+   of a block to [changes_of false b] when connecting and to [changes_of true b] — the PREVIOUS
+   revision numbers — when disconnecting. *)
+Theorem c01_build_state_gives_block_changes : forall (revert : bool) (b : block),
+  build_state revert (map diff1_of (evs1 b)) (map diff2_of (evs2 b)) = Some (changes_of revert b).
+Proof. exact build_state_block. Qed.
+Print Assumptions c01_build_state_gives_block_changes.
+
+(* ... and one batch reaches the store in the order of Manager.UpdateChainState ([manager_calls],
+   tied to the code by its own correspondence run on real chain updates): all reverts first, then
+   per applied block ApplyContracts and, when height >= buffer, RejectContracts(height - buffer). *)
+Theorem c01_batch_is_manager_order : forall (buffer : N) (R A : list block),
+  op_calls (map rev_of R) (map (app_of buffer) A) =
+  manager_calls buffer (map bheight R) (map bheight A).
+Proof. exact batch_calls. Qed.
+Print Assumptions c01_batch_is_manager_order.
 
 (* non-vacuity: a well-formed history (checked by the executable, sound checker wf_histb) with a
    v1 and a v2 contract, formation, revisions, a storage proof and a renewal, a two-block reorg that
